@@ -725,10 +725,12 @@ ensures
     assert(is_idft(c, points@, d0));
 ''')], ghost_after=[('ntt(tmp_coeffs, points, points.len()).unwrap()', 'let ghost t = tmp_coeffs@;')],
            ghost_before=[('let size_inv', 'let ghost d0 = choose|d0: nat| 1 <= d0 <= MAX_ROOTS && points@.len() == pow2(d0);')])
+    u.raw(ROOTPOW_LEMMAS, 'root-power-lemmas')
+    u.raw(INVERSE, 'inverse-theorem')
     return u
 
 
-ROOTPOW = '''
+ROOTPOW_HEAD = '''
 // ---- nth_root_powers: roots[k] == w_n^k -------------------------------------------------------------------------------------------
 #[verifier::external_body]
 fn usize_try_from_u128_r(x: u128) -> (r: Result<usize, ()>)
@@ -736,6 +738,8 @@ fn usize_try_from_u128_r(x: u128) -> (r: Result<usize, ()>)
 { unimplemented!() }
 // the first 2^i entries are the powers of root(i)
 pub open spec fn powers_ok(roots: Seq<Fe>, i: nat) -> bool { forall|k: int| 0 <= k < pow2(i) ==> cong(fe_v(#[trigger] roots[k]), pow(rootv(i as int), k as nat)) }
+'''
+ROOTPOW_LEMMAS = '''
 proof fn lemma_root_pow_even(i: int, j: nat)
     requires 1 <= i <= MAX_ROOTS
     ensures cong(pow(rootv(i - 1), j), pow(rootv(i), 2 * j))
@@ -761,6 +765,8 @@ proof fn lemma_root_pow_half(i: int, j: nat)
     lemma_cong_sym(pow(w, j) * pow(w, m), -pow(w, j));
 }
 '''
+ROOTPOW = ROOTPOW_HEAD + ROOTPOW_LEMMAS
+
 
 
 def unit_roots():
@@ -882,3 +888,238 @@ decreases mid + 2 - j
     assert(powers_ok(roots@, i as nat));
 '''})
     return u
+
+
+INVERSE = '''
+// ---- the inverse formula undoes the forward transform (lemma over the two contracts; orthogonality of the roots) -----------------
+// geometric sum 1 + x + .. + x^(n-1)
+pub open spec fn geo(x: int, n: int) -> int decreases n { if n <= 0 { 0 } else { geo(x, n - 1) + pow(x, (n - 1) as nat) } }
+proof fn lemma_geo_split(x: int, p: int, q: int)
+    requires p >= 0, q >= 0
+    ensures geo(x, p + q) == geo(x, p) + pow(x, p as nat) * geo(x, q)
+    decreases q
+{
+    if q == 0 { assert(geo(x, 0) == 0); assert(pow(x, p as nat) * 0 == 0); } else {
+        lemma_geo_split(x, p, q - 1);
+        lemma_pow_adds(x, p as nat, (q - 1) as nat);
+        assert(pow(x, p as nat) * (geo(x, q - 1) + pow(x, (q - 1) as nat)) == pow(x, p as nat) * geo(x, q - 1) + pow(x, p as nat) * pow(x, (q - 1) as nat)) by (nonlinear_arith);
+    }
+}
+proof fn lemma_cong_geo(x: int, y: int, n: int)
+    requires cong(x, y)
+    ensures cong(geo(x, n), geo(y, n))
+    decreases n
+{
+    if n <= 0 { lemma_cong_refl(0); } else { lemma_cong_geo(x, y, n - 1); lemma_cong_pow(x, y, (n - 1) as nat); lemma_cong_add(geo(x, n - 1), geo(y, n - 1), pow(x, (n - 1) as nat), pow(y, (n - 1) as nat)); }
+}
+proof fn lemma_geo_one(n: int) requires n >= 0 ensures geo(1, n) == n decreases n
+{ if n > 0 { lemma_geo_one(n - 1); lemma_pow1(1); assert(pow(1, (n - 1) as nat) == 1) by { lemma_one_pow((n - 1) as nat); } } }
+proof fn lemma_one_pow(k: nat) ensures pow(1, k) == 1 decreases k { reveal(pow); if k > 0 { lemma_one_pow((k - 1) as nat); } }
+proof fn lemma_neg_one_pow_odd(e: nat) requires e % 2 == 1 ensures pow(-1, e) == -1 decreases e
+{
+    reveal(pow);
+    if e == 1 { assert(pow(-1, 0) == 1); } else {
+        lemma_neg_one_pow_odd((e - 2) as nat);
+        assert(pow(-1, e) == (-1) * pow(-1, (e - 1) as nat));
+        assert(pow(-1, (e - 1) as nat) == (-1) * pow(-1, (e - 2) as nat));
+    }
+}
+// a point whose h-th power is -1 sums to zero over 2h consecutive powers
+proof fn lemma_geo_cancel(x: int, h: int)
+    requires h >= 0, cong(pow(x, h as nat), -1)
+    ensures cong(geo(x, 2 * h), 0)
+{
+    lemma_geo_split(x, h, h);
+    let g = geo(x, h);
+    lemma_cong_refl(g);
+    lemma_cong_mul(pow(x, h as nat), -1, g, g);
+    lemma_cong_add(g, g, pow(x, h as nat) * g, (-1) * g);
+    assert(g + (-1) * g == 0) by (nonlinear_arith);
+}
+// ORTHOGONALITY: the powers of root(d)^e sum to zero unless 2^d divides e
+proof fn lemma_orthogonal(d: nat, e: int)
+    requires d <= MAX_ROOTS, 0 < e < pow2(d)
+    ensures cong(geo(pow(rootv(d as int), e as nat), pow2(d) as int), 0)
+    decreases d
+{
+    lemma2_to64();
+    if d == 0 { assert(pow2(0) == 1); } else {
+        let w = rootv(d as int); let x = pow(w, e as nat); let h = pow2((d - 1) as nat) as int;
+        lemma_pow2_unfold(d);
+        axiom_roots(d as int);
+        if e % 2 == 1 {
+            // x^h == (w^h)^e == (-1)^e == -1
+            lemma_pow_multiplies(w, e as nat, h as nat); lemma_pow_multiplies(w, h as nat, e as nat);
+            assert((e as nat) * (h as nat) == (h as nat) * (e as nat)) by (nonlinear_arith);
+            lemma_cong_pow(pow(w, h as nat), -1, e as nat);
+            lemma_neg_one_pow_odd(e as nat);
+            lemma_geo_cancel(x, h);
+        } else {
+            // x == root(d-1)^(e/2): both halves vanish by induction
+            let e2 = e / 2;
+            lemma_root_pow_even(d as int, e2 as nat);
+            lemma_cong_sym(pow(rootv(d - 1), e2 as nat), x);
+            lemma_orthogonal((d - 1) as nat, e2);
+            lemma_cong_geo(x, pow(rootv(d - 1), e2 as nat), h);
+            lemma_cong_trans(geo(x, h), geo(pow(rootv(d - 1), e2 as nat), h), 0);
+            lemma_geo_split(x, h, h);
+            lemma_cong_refl(pow(x, h as nat));
+            lemma_cong_mul(pow(x, h as nat), pow(x, h as nat), geo(x, h), 0);
+            assert(pow(x, h as nat) * 0 == 0);
+            lemma_cong_add(geo(x, h), 0, pow(x, h as nat) * geo(x, h), 0);
+        }
+    }
+}
+// root(d)^(2^d) == 1
+proof fn lemma_root_order(d: nat)
+    requires d <= MAX_ROOTS
+    ensures cong(pow(rootv(d as int), pow2(d)), 1)
+{
+    lemma2_to64();
+    if d == 0 { axiom_roots(1); lemma_pow1(rootv(0)); assert(pow2(0) == 1); } else {
+        let w = rootv(d as int); let h = pow2((d - 1) as nat);
+        axiom_roots(d as int);
+        lemma_pow2_unfold(d);
+        lemma_pow_adds(w, h, h);
+        lemma_cong_mul(pow(w, h), -1, pow(w, h), -1);
+        assert((-1) * (-1) == 1);
+    }
+}
+// sum_{i<n} (sum_{m<mm} a_m (w^i)^m) * t^i  ==  sum_{m<mm} a_m * geo(w^m * t, n)      (exchange of the two sums, exact over Z)
+pub open spec fn dsum(a: Seq<Fe>, w: int, t: int, mm: int, n: int) -> int decreases n
+{ if n <= 0 { 0 } else { dsum(a, w, t, mm, n - 1) + esum(a, 0, 1, pow(w, (n - 1) as nat), mm) * pow(t, (n - 1) as nat) } }
+pub open spec fn gsum(a: Seq<Fe>, w: int, t: int, mm: int, n: int) -> int decreases mm
+{ if mm <= 0 { 0 } else { gsum(a, w, t, mm - 1, n) + inz(a, mm - 1) * geo(pow(w, (mm - 1) as nat) * t, n) } }
+proof fn lemma_exchange(a: Seq<Fe>, w: int, t: int, mm: int, n: int)
+    requires mm >= 0, n >= 0
+    ensures dsum(a, w, t, mm, n) == gsum(a, w, t, mm, n)
+    decreases n, mm
+{
+    if n == 0 {
+        lemma_gsum_zero(a, w, t, mm);
+    } else {
+        lemma_exchange(a, w, t, mm, n - 1);
+        lemma_gsum_step(a, w, t, mm, n);
+    }
+}
+proof fn lemma_gsum_zero(a: Seq<Fe>, w: int, t: int, mm: int)
+    requires mm >= 0 ensures gsum(a, w, t, mm, 0) == 0 decreases mm
+{ if mm > 0 { lemma_gsum_zero(a, w, t, mm - 1); assert(geo(pow(w, (mm - 1) as nat) * t, 0) == 0); assert(inz(a, mm - 1) * 0 == 0); } }
+// adding the n-th column: gsum(.., n) == gsum(.., n-1) + (sum_m a_m (w^(n-1))^m) * t^(n-1)
+proof fn lemma_gsum_step(a: Seq<Fe>, w: int, t: int, mm: int, n: int)
+    requires mm >= 0, n >= 1
+    ensures gsum(a, w, t, mm, n) == gsum(a, w, t, mm, n - 1) + esum(a, 0, 1, pow(w, (n - 1) as nat), mm) * pow(t, (n - 1) as nat)
+    decreases mm
+{
+    let k = (n - 1) as nat;
+    if mm == 0 {
+        assert(esum(a, 0, 1, pow(w, k), 0) == 0);
+        assert(0 * pow(t, k) == 0);
+    } else {
+        lemma_gsum_step(a, w, t, mm - 1, n);
+        let m = (mm - 1) as nat;
+        let x = pow(w, m) * t;
+        let c = inz(a, mm - 1);
+        // (w^m * t)^k == (w^k)^m * t^k
+        lemma_pow_distributes(pow(w, m), t, k);
+        lemma_pow_multiplies(w, m, k); lemma_pow_multiplies(w, k, m);
+        assert(m * k == k * m) by (nonlinear_arith);
+        assert(pow(x, k) == pow(pow(w, k), m) * pow(t, k));
+        assert(geo(x, n) == geo(x, n - 1) + pow(x, k));
+        assert(0 + (mm - 1) * 1 == mm - 1);
+        assert(esum(a, 0, 1, pow(w, k), mm) == esum(a, 0, 1, pow(w, k), mm - 1) + c * pow(pow(w, k), m));
+        let e1 = esum(a, 0, 1, pow(w, k), mm - 1); let pk = pow(pow(w, k), m); let tk = pow(t, k);
+        assert(c * (geo(x, n - 1) + pk * tk) == c * geo(x, n - 1) + (c * pk) * tk) by (nonlinear_arith);
+        assert((e1 + c * pk) * tk == e1 * tk + (c * pk) * tk) by (nonlinear_arith);
+    }
+}
+// sums of congruent terms are congruent
+proof fn lemma_cong_outer(big_a: Seq<Fe>, a: Seq<Fe>, w: int, t: int, mm: int, n: int)
+    requires 0 <= n <= big_a.len(), forall|i: int| 0 <= i < n ==> cong(fe_v(#[trigger] big_a[i]), esum(a, 0, 1, pow(w, i as nat), mm))
+    ensures cong(esum(big_a, 0, 1, t, n), dsum(a, w, t, mm, n))
+    decreases n
+{
+    if n == 0 { lemma_cong_refl(0); } else {
+        lemma_cong_outer(big_a, a, w, t, mm, n - 1);
+        assert(0 + (n - 1) * 1 == n - 1);
+        assert(inz(big_a, n - 1) == fe_v(big_a[n - 1]));
+        lemma_cong_refl(pow(t, (n - 1) as nat));
+        lemma_cong_mul(fe_v(big_a[n - 1]), esum(a, 0, 1, pow(w, (n - 1) as nat), mm), pow(t, (n - 1) as nat), pow(t, (n - 1) as nat));
+        lemma_cong_add(esum(big_a, 0, 1, t, n - 1), dsum(a, w, t, mm, n - 1), fe_v(big_a[n - 1]) * pow(t, (n - 1) as nat), esum(a, 0, 1, pow(w, (n - 1) as nat), mm) * pow(t, (n - 1) as nat));
+    }
+}
+// with t = w^(n-k) (or 1 for k = 0) every column but the k-th vanishes
+proof fn lemma_gsum_select(a: Seq<Fe>, d: nat, k: int, mm: int)
+    requires d <= MAX_ROOTS, 0 <= k < pow2(d), 0 <= mm <= pow2(d)
+    ensures cong(gsum(a, rootv(d as int), pow(rootv(d as int), inv_idx(pow2(d) as int, k) as nat), mm, pow2(d) as int), if k < mm { inz(a, k) * (pow2(d) as int) } else { 0 })
+    decreases mm
+{
+    let n = pow2(d) as int; let w = rootv(d as int); let t = pow(w, inv_idx(n, k) as nat);
+    if mm == 0 { lemma_cong_refl(0); } else {
+        lemma_gsum_select(a, d, k, mm - 1);
+        let m = mm - 1;
+        let x = pow(w, m as nat) * t;
+        lemma_pow_adds(w, m as nat, inv_idx(n, k) as nat);
+        let e = m + inv_idx(n, k);
+        assert(x == pow(w, e as nat));
+        let c = inz(a, m);
+        lemma_cong_refl(c);
+        if m == k {
+            // w^e == 1: e == 0 (k == 0) or e == n
+            if k == 0 { lemma_pow0(w); lemma_cong_refl(1); } else { lemma_root_order(d); }
+            lemma_cong_geo(x, 1, n);
+            lemma_geo_one(n);
+            lemma_cong_mul(c, c, geo(x, n), n);
+            lemma_cong_add(gsum(a, w, t, mm - 1, n), 0, c * geo(x, n), c * n);
+        } else {
+            // 0 < e < 2n, e != n: reduce below n, then orthogonality
+            let e0 = if e >= n { e - n } else { e };
+            if e >= n {
+                lemma_pow_adds(w, n as nat, e0 as nat);
+                lemma_root_order(d);
+                lemma_cong_refl(pow(w, e0 as nat));
+                lemma_cong_mul(pow(w, n as nat), 1, pow(w, e0 as nat), pow(w, e0 as nat));
+                assert(1 * pow(w, e0 as nat) == pow(w, e0 as nat));
+            } else { lemma_cong_refl(x); }
+            assert(0 < e0 < n);
+            lemma_orthogonal(d, e0);
+            lemma_cong_geo(x, pow(w, e0 as nat), n);
+            lemma_cong_trans(geo(x, n), geo(pow(w, e0 as nat), n), 0);
+            lemma_cong_mul(c, c, geo(x, n), 0);
+            assert(c * 0 == 0);
+            let rest = if k < mm - 1 { inz(a, k) * n } else { 0 };
+            lemma_cong_add(gsum(a, w, t, mm - 1, n), rest, c * geo(x, n), 0);
+        }
+    }
+}
+// INVERSE o FORWARD == identity: big_a meets the forward contract for a, c meets the inverse contract for big_a  ==>  c == a
+proof fn theorem_inverse_undoes_forward(a: Seq<Fe>, big_a: Seq<Fe>, c: Seq<Fe>, d: nat, ninv: int)
+    requires d <= MAX_ROOTS, a.len() == pow2(d), big_a.len() == pow2(d), c.len() == pow2(d),
+             cong(ninv * (pow2(d) as int), 1),
+             forall|i: int| 0 <= i < pow2(d) ==> cong(fe_v(#[trigger] big_a[i]), esum(a, 0, 1, tw(false, d as int, i), pow2(d) as int)),
+             forall|k: int| 0 <= k < pow2(d) ==> cong(fe_v(#[trigger] c[k]), esum(big_a, 0, 1, tw(false, d as int, inv_idx(pow2(d) as int, k)), pow2(d) as int) * ninv),
+    ensures forall|k: int| 0 <= k < pow2(d) ==> cong(fe_v(#[trigger] c[k]), fe_v(a[k]))
+{
+    let n = pow2(d) as int; let w = rootv(d as int);
+    assert forall|k: int| 0 <= k < n implies cong(fe_v(#[trigger] c[k]), fe_v(a[k])) by {
+        let t = pow(w, inv_idx(n, k) as nat);
+        assert(tw(false, d as int, inv_idx(n, k)) == 1 * t);
+        assert forall|i: int| 0 <= i < n implies cong(fe_v(#[trigger] big_a[i]), esum(a, 0, 1, pow(w, i as nat), n)) by {
+            assert(tw(false, d as int, i) == 1 * pow(w, i as nat));
+        }
+        lemma_cong_outer(big_a, a, w, t, n, n);
+        lemma_exchange(a, w, t, n, n);
+        lemma_gsum_select(a, d, k, n);
+        lemma_cong_trans(esum(big_a, 0, 1, t, n), gsum(a, w, t, n, n), inz(a, k) * n);
+        lemma_cong_refl(ninv);
+        lemma_cong_mul(esum(big_a, 0, 1, t, n), inz(a, k) * n, ninv, ninv);
+        lemma_cong_trans(fe_v(c[k]), esum(big_a, 0, 1, t, n) * ninv, (inz(a, k) * n) * ninv);
+        let ak = fe_v(a[k]);
+        lemma_cong_refl(ak);
+        lemma_cong_mul(ak, ak, ninv * n, 1);
+        assert((inz(a, k) * n) * ninv == ak * (ninv * n)) by (nonlinear_arith) requires inz(a, k) == ak;
+        assert(ak * 1 == ak);
+        lemma_cong_trans(fe_v(c[k]), ak * (ninv * n), ak);
+    }
+}
+'''
